@@ -271,11 +271,13 @@ type sealed struct {
 }
 
 type world struct {
-	f      *chainFx
-	eng    *ucon.Server
-	mux    *event.TypeMux
-	sub    *event.TypeMuxSubscription
-	sealed []sealed
+	f        *chainFx
+	eng      *ucon.Server
+	mux      *event.TypeMux
+	sub      *event.TypeMuxSubscription
+	sealed   []sealed
+	pending  []ucon.VoteMsgEvent // cached vote messages the handler re-posted (processCachedMsgs), not yet given to the voter
+	arrivals []string            // keys of the votes delivered while their index was in the future, in order of arrival
 }
 
 func newWorld(f *chainFx) (*world, error) {
@@ -285,7 +287,7 @@ func newWorld(f *chainFx) (*world, error) {
 	if err := eng.SetValKey(me.key.Priv, blsBytes(me.key)); err != nil {
 		return nil, err
 	}
-	w.sub = w.mux.Subscribe(ucon.SendMessageEvent{}, ucon.CommitEvent{}, ucon.RoundIndexChangeEvent{}, ucon.UpdateExistedHeaderEvent{})
+	w.sub = w.mux.Subscribe(ucon.SendMessageEvent{}, ucon.CommitEvent{}, ucon.RoundIndexChangeEvent{}, ucon.UpdateExistedHeaderEvent{}, ucon.VoteMsgEvent{})
 	base := runtime.NumGoroutine() // quiescent here: the previous behaviour was drained
 	if err := eng.VerifAssemble(f.bc, &inserter{w}, w.mux); err != nil {
 		return nil, err
@@ -314,9 +316,14 @@ func (w *world) senders(vs ucon.VotesInfoForBlockHash) []int {
 // drain: see drive/voter.  Commit events are executed through the real Server.commit as they are collected.
 func (w *world) drain(base int, ev map[string]interface{}) error {
 	deadline := time.Now().Add(20 * time.Second)
-	sent := []map[string]interface{}{}
-	commits := []map[string]interface{}{}
-	upd := []map[string]interface{}{}
+	list := func(k string) []map[string]interface{} {
+		if l, ok := ev[k].([]map[string]interface{}); ok {
+			return l
+		}
+		return []map[string]interface{}{}
+	}
+	sent, commits, upd := list("sent"), list("commits"), list("upd")
+	nsent0 := len(sent)
 	nric := 0
 	for {
 		select {
@@ -347,6 +354,8 @@ func (w *world) drain(base int, ev map[string]interface{}) error {
 					}
 				}
 				commits = append(commits, c)
+			case ucon.VoteMsgEvent:
+				w.pending = append(w.pending, d)
 			case ucon.RoundIndexChangeEvent:
 				nric++
 			case ucon.UpdateExistedHeaderEvent:
@@ -355,7 +364,8 @@ func (w *world) drain(base int, ev map[string]interface{}) error {
 		default:
 			if runtime.NumGoroutine() <= base {
 				key := func(m map[string]interface{}) string { return fmt.Sprint(m["k"], m["r"], m["i"], m["b"]) }
-				sort.SliceStable(sent, func(a, b int) bool { return key(sent[a]) < key(sent[b]) })
+				tail := sent[nsent0:]
+				sort.SliceStable(tail, func(a, b int) bool { return key(tail[a]) < key(tail[b]) })
 				ev["sent"] = sent
 				ev["commits"] = commits
 				if len(upd) > 0 {
@@ -369,6 +379,65 @@ func (w *world) drain(base int, ev map[string]interface{}) error {
 			runtime.Gosched()
 		}
 	}
+}
+
+// voteKey identifies a vote message: kind/sender/block/index.
+func (w *world) voteKey(k string, s int, b string, i uint32) string { return fmt.Sprint(k, "/", s, "/", b, "/", i) }
+
+// replayCached gives the vote messages the handler re-posted from its cache to the voter, as Voter.eventLoop does
+// (status msgSame).  The engine posts them asynchronously, i.e. in no particular order; the driver uses the order
+// prevotes, precommits, next-index votes, each in order of arrival.
+func (w *world) replayCached(ev map[string]interface{}) error {
+	type item struct {
+		e    ucon.VoteMsgEvent
+		k    string
+		s    int
+		b    string
+		rank int
+	}
+	items := []item{}
+	for _, e := range w.pending {
+		it := item{e: e, k: "?", s: -1}
+		for n, vt := range kinds {
+			if vt == e.VType {
+				it.k = n
+			}
+		}
+		if n, ok := w.f.idx[e.Msg.VerifSender()]; ok {
+			it.s = n
+		}
+		it.b = w.f.names[e.Msg.VotesData.BlockHash]
+		key := w.voteKey(it.k, it.s, it.b, e.Msg.VotesData.RoundIndex)
+		it.rank = len(w.arrivals)
+		for n, a := range w.arrivals {
+			if a == key {
+				it.rank = n
+				break
+			}
+		}
+		ko := map[string]int{"Prevote": 0, "Precommit": 1, "Next": 2, "Cert": 3}[it.k]
+		it.rank += ko * 1000000
+		items = append(items, it)
+	}
+	w.pending = nil
+	sort.SliceStable(items, func(a, b int) bool { return items[a].rank < items[b].rank })
+	replayed := []map[string]interface{}{}
+	for _, it := range items {
+		base := runtime.NumGoroutine()
+		err, invalid := w.eng.VerifVoter().VerifVoteMsgEvent(it.e)
+		r := map[string]interface{}{"k": it.k, "s": it.s, "b": it.b, "i": it.e.Msg.VotesData.RoundIndex}
+		if err != nil || invalid {
+			r["rej"] = fmt.Sprint(err)
+		}
+		replayed = append(replayed, r)
+		if err := w.drain(base, ev); err != nil {
+			return err
+		}
+	}
+	if len(replayed) > 0 {
+		ev["replayed"] = replayed
+	}
+	return nil
 }
 
 func (w *world) obs() map[string]interface{} {
@@ -412,15 +481,21 @@ func (w *world) step(op Op) (map[string]interface{}, error) {
 			w.eng.VerifStep(ucon.UConStepStart)
 		case "Recv":
 			ev["s"], ev["k"], ev["b"], ev["i"], ev["cred"] = op.S, op.K, op.B, op.I, op.Cred
+			_, cur := w.eng.VerifContext()
 			err := w.eng.HandleMsg(w.f.voteMsg(op.S, op.K, op.B, op.I, op.Cred), time.Now())
 			if err != nil {
 				ev["rej"] = err.Error()
+			} else if op.I > cur {
+				w.arrivals = append(w.arrivals, w.voteKey(op.K, op.S, op.B, op.I))
 			}
 		default:
 			panic("unknown op " + op.Op)
 		}
 	}()
 	if err := w.drain(base, ev); err != nil {
+		return nil, err
+	}
+	if err := w.replayCached(ev); err != nil {
 		return nil, err
 	}
 	ev["obs"] = w.obs()
@@ -458,6 +533,9 @@ func run(env *drive.Env) error {
 			w.eng.VerifCacheBlock(b)
 		}
 		if err := w.drain(base, first); err != nil {
+			return err
+		}
+		if err := w.replayCached(first); err != nil {
 			return err
 		}
 		first["obs"] = w.obs()
